@@ -522,6 +522,14 @@ func (cfg *Config) obtainOnDemandCertificate(ctx context.Context, hello *tls.Cli
 	// We must protect this process from happening concurrently, so synchronize.
 	obtainCertWaitChansMu.Lock()
 	wait, ok := obtainCertWaitChans[name]
+	if ok && ctx.Value(obtainWaitChanCtxKey) == any(wait) {
+		// this very goroutine is the one obtaining the certificate for this name: it has come
+		// back here while maintaining the certificate it loaded after obtaining (which is in need
+		// of renewal already and has since vanished from storage). Waiting on our own channel would
+		// block us, and everyone waiting on us, until the timeout.
+		obtainCertWaitChansMu.Unlock()
+		return Certificate{}, fmt.Errorf("already obtaining certificate for %s", name)
+	}
 	if ok {
 		// lucky us -- another goroutine is already obtaining the certificate.
 		// wait for it to finish obtaining the cert and then we'll use it.
@@ -549,6 +557,10 @@ func (cfg *Config) obtainOnDemandCertificate(ctx context.Context, hello *tls.Cli
 	wait = make(chan struct{})
 	obtainCertWaitChans[name] = wait
 	obtainCertWaitChansMu.Unlock()
+
+	// remember that it is us, in case the maintenance of the certificate
+	// we load below gets back to waiting for an obtain or renewal of this name
+	ctx = context.WithValue(ctx, obtainWaitChanCtxKey, wait)
 
 	unblockWaiters := func() {
 		obtainCertWaitChansMu.Lock()
@@ -720,6 +732,17 @@ func (cfg *Config) renewDynamicCertificate(ctx context.Context, hello *tls.Clien
 	// see if another goroutine is already working on this certificate
 	obtainCertWaitChansMu.Lock()
 	wait, ok := obtainCertWaitChans[name]
+	if ok && ctx.Value(obtainWaitChanCtxKey) == any(wait) {
+		// this very goroutine registered the channel, in obtainOnDemandCertificate, and is
+		// maintaining the certificate it loaded after obtaining (which can be an old one that was
+		// still in storage): nobody else is renewing it, and waiting on our own channel would
+		// block us, and everyone waiting on us, until the timeout. Serve it if it is usable.
+		obtainCertWaitChansMu.Unlock()
+		if timeLeft > 0 && !revoked {
+			return currentCert, nil
+		}
+		return Certificate{}, fmt.Errorf("certificate for %s loaded after obtaining it has expired or is revoked", name)
+	}
 	if ok {
 		// lucky us -- another goroutine is already renewing the certificate
 		obtainCertWaitChansMu.Unlock()
@@ -992,6 +1015,12 @@ var (
 type loadWaitChanCtxKeyType struct{}
 
 var loadWaitChanCtxKey loadWaitChanCtxKeyType
+
+// obtainWaitChanCtxKey is the same for obtainCertWaitChans: the channel registered by a
+// goroutine in obtainOnDemandCertificate is stored under it in the context it continues with.
+type obtainWaitChanCtxKeyType struct{}
+
+var obtainWaitChanCtxKey obtainWaitChanCtxKeyType
 
 type serializableClientHello struct {
 	CipherSuites      []uint16
